@@ -41,7 +41,24 @@ impl Concretiser {
     pub fn msg(&mut self, m: &Value) -> Vec<u8> {
         let tag = m["tag"].as_str().unwrap();
         let ver = m["ver"].as_u64().unwrap();
-        let payload = self.payload(m["payload"].as_str().unwrap());
+        // v0 messages carry their flat body (payload chunks, then the external signature bytes or
+        // whatever sits in the external signature field); every other layout names one payload
+        let body: Vec<Value> = m.get("body").and_then(|b| b.as_array()).cloned().unwrap_or_default();
+        let payload = if tag == "v0" && !body.is_empty() {
+            let mut out = Vec::new();
+            for ch in &body {
+                if let Some(p) = ch.get("part").and_then(|p| p.as_str()) {
+                    out.extend(self.payload(p));
+                } else {
+                    out.extend(self.sig(&ch["sig"]));
+                }
+            }
+            out
+        } else if tag == "raw" {
+            Vec::new()
+        } else {
+            self.payload(m["payload"].as_str().unwrap())
+        };
         let prev: Vec<Vec<u8>> = m["prev"]
             .as_array()
             .unwrap()
@@ -86,6 +103,13 @@ impl Concretiser {
                     out.extend(e);
                 }
             }
+            "ext0" => {
+                // deprecated external signature: payload ++ algorithm ++ public key of the block's signer
+                out.extend(&payload);
+                let (a, k) = self.key_bytes(&m["nk"]);
+                out.extend(a.to_le_bytes());
+                out.extend(k);
+            }
             "ext" => {
                 out.extend(b"\0EXTERNAL\0");
                 out.extend(b"\0VERSION\0");
@@ -117,6 +141,10 @@ impl Concretiser {
         let key = s.to_string();
         if let Some(b) = self.sig_cache.get(&key) {
             return b.clone();
+        }
+        if s["msg"]["tag"] == "raw" {
+            // not a signature: the bytes of a payload chunk sitting in a signature field
+            return self.payload(s["msg"]["payload"].as_str().unwrap());
         }
         let kp = keys::keypair_of(&s["signer"]);
         let m = self.msg(&s["msg"]);
